@@ -15,6 +15,7 @@ import (
 	"strconv"
 	"strings"
 	"sync"
+	"sync/atomic"
 	"time"
 
 	"gosmt/smt"
@@ -29,26 +30,26 @@ var tvRun, tvAgree int
 var tvNotes []string
 
 type ObSpec struct {
-	Name       string       `json:"name"`
-	Pkg        string       `json:"pkg"`
-	Func       string       `json:"func"`
-	Tier       string       `json:"tier"` // "", "quick", "thorough" ("" = both)
-	Unwind     int          `json:"unwind"`
-	MaxPaths   int          `json:"max_paths"`
-	AllowPanic bool         `json:"allow_panic"`
-	Reach      []string     `json:"reach"`
-	Solver     string       `json:"solver"`
-	TimeoutMs  int          `json:"timeout_ms"`
-	MaxSteps   int          `json:"max_steps"`   // instruction budget per path (default 4000000)
-	Diverge    bool         `json:"diverge_is_violation"` // exceeding the unwinding / step bound is reported as non-termination
-	Cuts       []sx.CutSpec `json:"cuts"`
-	Bound      string       `json:"bound"`
-	Claim      string       `json:"claim"`
-	NoReplay   bool         `json:"no_replay"`
-	AssertSolver string     `json:"assert_solver"`
-	BMC        *sx.BMCSpec  `json:"bmc"`
-	NoLemmas   bool         `json:"no_lemmas"`
-	Params     map[string]int `json:"params"` // tier-dependent ints readable by harness via vparam (quick)
+	Name           string         `json:"name"`
+	Pkg            string         `json:"pkg"`
+	Func           string         `json:"func"`
+	Tier           string         `json:"tier"` // "", "quick", "thorough" ("" = both)
+	Unwind         int            `json:"unwind"`
+	MaxPaths       int            `json:"max_paths"`
+	AllowPanic     bool           `json:"allow_panic"`
+	Reach          []string       `json:"reach"`
+	Solver         string         `json:"solver"`
+	TimeoutMs      int            `json:"timeout_ms"`
+	MaxSteps       int            `json:"max_steps"`            // instruction budget per path (default 4000000)
+	Diverge        bool           `json:"diverge_is_violation"` // exceeding the unwinding / step bound is reported as non-termination
+	Cuts           []sx.CutSpec   `json:"cuts"`
+	Bound          string         `json:"bound"`
+	Claim          string         `json:"claim"`
+	NoReplay       bool           `json:"no_replay"`
+	AssertSolver   string         `json:"assert_solver"`
+	BMC            *sx.BMCSpec    `json:"bmc"`
+	NoLemmas       bool           `json:"no_lemmas"`
+	Params         map[string]int `json:"params"` // tier-dependent ints readable by harness via vparam (quick)
 	ParamsThorough map[string]int `json:"params_thorough"`
 }
 
@@ -454,6 +455,9 @@ func runOb(eng *sx.Engine, o ObSpec, tier string, open map[string]bool, verbose 
 		x.Run(fn)
 	}()
 	res.St = x.St
+	if len(x.St.Violations) > 0 {
+		atomic.StoreInt32(&sx.StopAll, 1)
+	}
 	res.Params = x.Params
 	res.Solver.Queries, res.Solver.Sat, res.Solver.Unsat, res.Solver.Unknown = s.Queries, s.NSat, s.NUnsat, s.NUnk
 	res.Solver.Queries += x.AuxQueries
@@ -476,32 +480,32 @@ func writeEvidence(spec Spec, tier string, seed int, results []*obResult, wall f
 	}
 	os.MkdirAll(evDir, 0o755)
 	type obEv struct {
-		Name      string         `json:"name"`
-		Harness   string         `json:"harness"`
-		Status    string         `json:"status"`
-		Bound     string         `json:"bound,omitempty"`
-		Claim     string         `json:"claim,omitempty"`
-		Paths     int            `json:"paths"`
-		PathKinds map[string]int `json:"path_outcomes"`
-		Forks     int            `json:"forks"`
-		Steps     int            `json:"ssa_instructions_executed"`
-		MaxUnwind int            `json:"max_block_visits"`
-		Unwind    int            `json:"unwind_bound"`
-		Queries   int            `json:"solver_queries"`
-		Sat       int            `json:"sat"`
-		Unsat     int            `json:"unsat"`
-		Unknown   int            `json:"unknown"`
-		SolverS   float64        `json:"solver_s"`
-		WallS     float64        `json:"wall_s"`
-		Solver    string         `json:"solver"`
-		Reached   []string       `json:"vacuity_witnesses_reached"`
-		Funcs     []string       `json:"functions_encoded"`
-		Stubs     map[string]int `json:"stubs_used,omitempty"`
-		Notes     map[string]int `json:"notes,omitempty"`
+		Name      string            `json:"name"`
+		Harness   string            `json:"harness"`
+		Status    string            `json:"status"`
+		Bound     string            `json:"bound,omitempty"`
+		Claim     string            `json:"claim,omitempty"`
+		Paths     int               `json:"paths"`
+		PathKinds map[string]int    `json:"path_outcomes"`
+		Forks     int               `json:"forks"`
+		Steps     int               `json:"ssa_instructions_executed"`
+		MaxUnwind int               `json:"max_block_visits"`
+		Unwind    int               `json:"unwind_bound"`
+		Queries   int               `json:"solver_queries"`
+		Sat       int               `json:"sat"`
+		Unsat     int               `json:"unsat"`
+		Unknown   int               `json:"unknown"`
+		SolverS   float64           `json:"solver_s"`
+		WallS     float64           `json:"wall_s"`
+		Solver    string            `json:"solver"`
+		Reached   []string          `json:"vacuity_witnesses_reached"`
+		Funcs     []string          `json:"functions_encoded"`
+		Stubs     map[string]int    `json:"stubs_used,omitempty"`
+		Notes     map[string]int    `json:"notes,omitempty"`
 		Known     map[string]string `json:"known_findings_hit,omitempty"`
-		Viol      []sx.Violation `json:"violations,omitempty"`
-		BMC       *sx.BMCResult  `json:"interleaving,omitempty"`
-		Replays   []string       `json:"replays,omitempty"`
+		Viol      []sx.Violation    `json:"violations,omitempty"`
+		BMC       *sx.BMCResult     `json:"interleaving,omitempty"`
+		Replays   []string          `json:"replays,omitempty"`
 	}
 	var obl []obEv
 	totalQ, totalPaths, totalSteps, disch, replays := 0, 0, 0, 0, 0
